@@ -57,9 +57,12 @@ Theorem C16_aad_agreement :
 Proof. exact enc_input_agreement. Qed.
 Print Assumptions C16_aad_agreement.
 
-(** Round trip: an acceptor whose key ring resolves the key recovers exactly
-    the original plaintext - for every plaintext, the empty one included -
-    and what it received as BTSD was the ciphertext. *)
+(** Round trip: an ACCEPTOR (third argument of [verify_bcb_asb] = [true], i.e.
+    config accept_after_verify on) whose key ring resolves the key recovers
+    exactly the original plaintext - for every plaintext, the empty one
+    included - and what it received as BTSD was the ciphertext.  A node that
+    only verifies (accept_after_verify off, the agent's default) keeps the
+    ciphertext in the block: [C16_verifier_only_keeps_bundle]. *)
 Theorem C16_roundtrip :
   forall (key : Type) (enc : key -> bytes -> bytes -> bytes -> bytes)
          (dec : key -> bytes -> bytes -> bytes -> option bytes) (wrap : key -> key -> bytes)
